@@ -10,19 +10,37 @@ Proof. unfold upd. rewrite N.eqb_refl. reflexivity. Qed.
 Lemma upd_other {A} (m : fmap A) k v q : q <> k -> upd m k v q = m q.
 Proof. intro H. unfold upd. destruct (N.eqb_spec q k); [contradiction | reflexivity]. Qed.
 
-Lemma cname_inj sd1 sd2 p q : cname sd1 p = cname sd2 q -> sd1 = sd2 /\ p = q.
-Proof. destruct sd1, sd2; unfold cname; intro E; try (split; [reflexivity | lia]); lia. Qed.
-Lemma cname_neq p sd : cname sd p <> p \/ p = 0%N.
-Proof. destruct sd; unfold cname; lia. Qed.
-Lemma cname_ne p sd : cname sd p <> p.
-Proof. destruct sd; unfold cname; lia. Qed.
-Lemma cname_sd p : cname Source p <> cname Dest p.
-Proof. unfold cname; lia. Qed.
-Global Opaque cname.
+Lemma cname_k_ne sd p k : cname_k sd p k <> p.
+Proof. destruct sd; unfold cname_k, side_num; lia. Qed.
+Lemma cname_k_inj sd1 sd2 p q k1 k2 : (k1 < 4)%N -> (k2 < 4)%N -> cname_k sd1 p k1 = cname_k sd2 q k2 -> sd1 = sd2 /\ p = q /\ k1 = k2.
+Proof. destruct sd1, sd2; unfold cname_k, side_num; intros H1 H2 E; repeat split; try reflexivity; lia. Qed.
+Lemma free_slot_is m sd p : forall fuel k, exists k', free_slot m sd p fuel k = cname_k sd p k'.
+Proof. induction fuel as [|f IH]; intro k; cbn [free_slot]; [eexists; reflexivity|]. destruct (m (cname_k sd p k)); [apply IH | eexists; reflexivity]. Qed.
+Lemma cslot_is m sd p : exists k, cslot m sd p = cname_k sd p k.
+Proof. apply free_slot_is. Qed.
+Lemma cslot_ne m sd p : cslot m sd p <> p.
+Proof. destruct (cslot_is m sd p) as [k ->]. apply cname_k_ne. Qed.
+(* the chosen name is unused whenever one of the names tried is *)
+Lemma free_slot_unused m sd p : forall fuel k, (exists j, (j <= N.of_nat fuel)%N /\ m (cname_k sd p (k + j)) = None) ->
+  m (free_slot m sd p fuel k) = None.
+Proof.
+  induction fuel as [|f IH]; intros k (j & Hj & Hm); cbn [free_slot].
+  - assert (j = 0%N) by lia. subst. rewrite N.add_0_r in Hm. exact Hm.
+  - destruct (m (cname_k sd p k)) eqn:E; [|exact E]. apply IH.
+    destruct (N.eq_dec j 0) as [->|Hne]; [rewrite N.add_0_r in Hm; congruence|].
+    exists (j - 1)%N. split; [lia|]. replace (k + 1 + (j - 1))%N with (k + j)%N by lia. exact Hm.
+Qed.
+Lemma cslot_unused m sd p : (exists j, (j <= 3)%N /\ m (cname_k sd p j) = None) -> m (cslot m sd p) = None.
+Proof. intros (j & Hj & Hm). unfold cslot. apply free_slot_unused. exists j. split; [exact Hj | exact Hm]. Qed.
+Global Opaque cname_k cslot.
 
-(* ---------- frame: an action at p writes p, and the conflict names of p only when it is a rename ---------- *)
+(* ---------- frame: an action at p writes p, and a conflict name of p only when it is a rename ---------- *)
+Definition is_cname (p q : N) : Prop := exists sd k, q = cname_k sd p k.
 Definition touches (a : act) (p q : N) : Prop :=
-  q = p \/ (a = RenameConflict /\ (q = cname Source p \/ q = cname Dest p)).
+  q = p \/ (a = RenameConflict /\ is_cname p q).
+
+Lemma cslot_is_cname m sd p : is_cname p (cslot m sd p).
+Proof. destruct (cslot_is m sd p) as [k E]. exists sd, k. exact E. Qed.
 
 Lemma exec_frame now w p a q : ~ touches a p q -> at_ (exec now w p a) q = at_ w q.
 Proof.
@@ -32,8 +50,8 @@ Proof.
   - destruct (w_src w p); cbn; rewrite ?upd_other by assumption; reflexivity.
   - cbn. rewrite ?upd_other by assumption. reflexivity.
   - cbn. rewrite ?upd_other by assumption. reflexivity.
-  - assert (q <> cname Source p) by (intro; apply Hn; right; split; [reflexivity | left; assumption]).
-    assert (q <> cname Dest p) by (intro; apply Hn; right; split; [reflexivity | right; assumption]).
+  - assert (q <> cslot (w_src w) Source p) by (intro X; apply Hn; right; split; [reflexivity | rewrite X; apply cslot_is_cname]).
+    assert (q <> cslot (w_dst w) Dest p) by (intro X; apply Hn; right; split; [reflexivity | rewrite X; apply cslot_is_cname]).
     destruct (w_src w p), (w_dst w p); cbn; rewrite ?upd_other by assumption; reflexivity.
 Qed.
 
@@ -64,8 +82,7 @@ Proof.
   - cbn. rewrite ?upd_same, ?E2, ?E3, ?E4. reflexivity.
   - cbn. rewrite ?upd_same, ?E1, ?E3, ?E4. reflexivity.
   - destruct (w_src w2 p) eqn:Es, (w_dst w2 p) eqn:Ed; cbn; rewrite ?E1, ?E2, ?E3, ?E4, ?Es, ?Ed; try reflexivity.
-    unfold upd. rewrite ?N.eqb_refl.
-    destruct (N.eqb p (cname Source p)), (N.eqb p (cname Dest p)); rewrite ?N.eqb_refl; reflexivity.
+    rewrite !(upd_other _ (cslot _ _ p)) by (apply not_eq_sym; apply cslot_ne). rewrite !upd_same. reflexivity.
 Qed.
 
 Lemma fold_at st now w0 : forall U acc p,
@@ -118,13 +135,13 @@ Qed.
 (* ---------- one path through one sync ---------- *)
 (* conflict copies of the paths under consideration land outside the universe (no clash with an existing path) *)
 Definition conflict_names_outside (U : list N) : Prop :=
-  forall p sd, In p U -> ~ In (cname sd p) U.
+  forall p q, In p U -> is_cname p q -> ~ In q U.
 
 Lemma others_dont_touch U st w p q :
   conflict_names_outside U -> In p U -> In q U -> q <> p ->
   forall a, action_of st w q = Some a -> ~ touches a q p.
 Proof.
-  intros Hc Hp Hq Hne a _ [E|[_ [E|E]]]; [congruence | |]; apply (Hc q) with (sd := Source) in Hq as H1; apply (Hc q) with (sd := Dest) in Hq as H2; subst; contradiction.
+  intros Hc Hp Hq Hne a _ [E|[_ E]]; [congruence|]. exact (Hc q p Hq E Hp).
 Qed.
 
 Definition path_sync (st : strategy) (now : Z) (w : world) (p : N) : world := record_path (sync_step st now w w p) p.
@@ -218,9 +235,8 @@ Proof.
   - intro Hd. unfold record_path. cbn. rewrite upd_same, Hd. cbn. rewrite upd_same, Hd. reflexivity.
   - intro Hs. unfold record_path. cbn. rewrite upd_same, Hs. cbn. rewrite upd_same, Hs. reflexivity.
   - intros [Hs Hd]. destruct (w_src w p) as [s|] eqn:Es; [|congruence]. destruct (w_dst w p) as [d|] eqn:Ed; [|congruence].
-    pose proof (cname_ne p Source) as N1. pose proof (cname_ne p Dest) as N2.
-    unfold record_path. cbn. rewrite !(upd_other _ (cname _ p)) by congruence. rewrite !upd_same. cbn.
-    rewrite !(upd_other _ (cname _ p)) by congruence. rewrite !upd_same. reflexivity.
+    unfold record_path. cbn. rewrite !(upd_other _ (cslot _ _ p)) by (apply not_eq_sym; apply cslot_ne). rewrite !upd_same. cbn.
+    rewrite !(upd_other _ (cslot _ _ p)) by (apply not_eq_sym; apply cslot_ne). rewrite !upd_same. reflexivity.
 Qed.
 
 (* what the classifier and resolver decide at p, given truthful rows: afterwards the sides agree at p *)
@@ -370,7 +386,7 @@ Qed.
 Theorem source_version_accounted st now w p s :
   rows_ok w p -> w_src w p = Some s ->
   let w' := path_sync st now w p in
-  w_src w' p = Some s \/ w_src w' (cname Source p) = Some s \/
+  w_src w' p = Some s \/ (exists k, w_src w' (cname_k Source p k) = Some s) \/
   (exists rs, w_dbs w p = Some rs /\ is_modified s rs = false) \/
   (exists c, classify (w_src w p) (w_dst w p) (w_dbs w p) (w_dbd w p) = Some c /\ is_conflict c = true /\ st <> RenameBoth) \/
   (w_dbs w p = None /\ (exists rd, w_dbd w p = Some rd) /\ w_dst w p = None).
@@ -405,7 +421,7 @@ Proof.
     + (* RenameConflict: kept under the conflict name *)
       right. left. pose proof (action_of_ok st w p RenameConflict) as Hok. unfold action_of in Hok. rewrite Ec in Hok. specialize (Hok Ea).
       destruct Hok as [_ Hd]. destruct (w_dst w p) as [d|] eqn:Ed; [|congruence].
-      destruct (record_path_files (exec now w p RenameConflict) p (cname Source p)) as [A _]. rewrite A. cbn. rewrite Hs, Ed. cbn. apply upd_same.
+      destruct (cslot_is (w_src w) Source p) as [k Ek]. exists k. destruct (record_path_files (exec now w p RenameConflict) p (cname_k Source p k)) as [A _]. rewrite A. cbn. rewrite Hs, Ed. cbn. rewrite Ek. apply upd_same.
   - left. destruct (record_path_files w p p) as [A _]. rewrite A. exact Hs.
 Qed.
 
@@ -413,7 +429,7 @@ Qed.
 Theorem dest_version_accounted st now w p d :
   rows_ok w p -> w_dst w p = Some d ->
   let w' := path_sync st now w p in
-  w_dst w' p = Some d \/ w_dst w' (cname Dest p) = Some d \/
+  w_dst w' p = Some d \/ (exists k, w_dst w' (cname_k Dest p k) = Some d) \/
   (exists rd, w_dbd w p = Some rd /\ is_modified d rd = false) \/
   (exists c, classify (w_src w p) (w_dst w p) (w_dbs w p) (w_dbd w p) = Some c /\ is_conflict c = true /\ st <> RenameBoth) \/
   (w_dbd w p = None /\ (exists rs, w_dbs w p = Some rs) /\ w_src w p = None).
@@ -448,8 +464,30 @@ Proof.
     + (* RenameConflict: kept under the conflict name *)
       right. left. pose proof (action_of_ok st w p RenameConflict) as Hok. unfold action_of in Hok. rewrite Ec in Hok. specialize (Hok Ea).
       destruct Hok as [Hs _]. destruct (w_src w p) as [s|] eqn:Es; [|congruence].
-      destruct (record_path_files (exec now w p RenameConflict) p (cname Dest p)) as [_ B]. rewrite B. cbn. rewrite Es, Hd. cbn. apply upd_same.
+      destruct (cslot_is (w_dst w) Dest p) as [k Ek]. exists k. destruct (record_path_files (exec now w p RenameConflict) p (cname_k Dest p k)) as [_ B]. rewrite B. cbn. rewrite Es, Hd. cbn. rewrite Ek. apply upd_same.
   - left. destruct (record_path_files w p p) as [_ B]. rewrite B. exact Hd.
+Qed.
+
+(* no action at p destroys a file at ANOTHER path -- in particular an earlier conflict copy: the rename takes a name that is
+   not in use (as long as one of the names it tries is free) *)
+Definition slot_free (m : fmap fent) (sd : side) (p : N) : Prop := exists j, (j <= 3)%N /\ m (cname_k sd p j) = None.
+
+Theorem exec_keeps_other_paths now w p a q :
+  q <> p -> slot_free (w_src w) Source p -> slot_free (w_dst w) Dest p ->
+  (forall v, w_src w q = Some v -> w_src (exec now w p a) q = Some v) /\
+  (forall v, w_dst w q = Some v -> w_dst (exec now w p a) q = Some v).
+Proof.
+  intros Hq Fs Fd. destruct a; cbn [exec].
+  - destruct (w_dst w p); cbn; split; intros v Hv; rewrite ?upd_other by exact Hq; exact Hv.
+  - destruct (w_src w p); cbn; split; intros v Hv; rewrite ?upd_other by exact Hq; exact Hv.
+  - cbn. split; intros v Hv; rewrite ?upd_other by exact Hq; exact Hv.
+  - cbn. split; intros v Hv; rewrite ?upd_other by exact Hq; exact Hv.
+  - destruct (w_src w p) as [s|], (w_dst w p) as [d|]; cbn; try (split; intros v Hv; exact Hv).
+    split; intros v Hv.
+    + assert (q <> cslot (w_src w) Source p) by (intro X; rewrite X in Hv; rewrite (cslot_unused _ _ _ Fs) in Hv; discriminate).
+      rewrite !upd_other by assumption. exact Hv.
+    + assert (q <> cslot (w_dst w) Dest p) by (intro X; rewrite X in Hv; rewrite (cslot_unused _ _ _ Fd) in Hv; discriminate).
+      rewrite !upd_other by assumption. exact Hv.
 Qed.
 
 (* ---------- histories: the invariant that makes the database truthful ---------- *)
@@ -524,7 +562,7 @@ Proof.
   - destruct (exec_db (t + 1) w p a) as [D1 D2].
     apply Hfiles; [| |rewrite D1; intros y Hy; specialize (T3 y Hy); lia|rewrite D2; intros y Hy; specialize (T4 y Hy); lia];
       destruct a; cbn [exec]; destruct (w_src w p) as [s|] eqn:Es; destruct (w_dst w p) as [d|] eqn:Ed; cbn [w_src w_dst];
-      intros y Hy; rewrite ?upd_same in Hy; try (rewrite upd_other in Hy by (intro X; symmetry in X; revert X; apply cname_ne); rewrite ?upd_same in Hy); rewrite ?Es, ?Ed in Hy;
+      intros y Hy; rewrite ?upd_same in Hy; try (rewrite upd_other in Hy by (apply not_eq_sym; apply cslot_ne); rewrite ?upd_same in Hy); rewrite ?Es, ?Ed in Hy;
       try discriminate; inversion Hy; subst; cbn; try lia;
       try (specialize (T1 _ eq_refl); lia); try (specialize (T2 _ eq_refl); lia).
   - apply Hfiles; intros y Hy; [specialize (T1 y Hy)|specialize (T2 y Hy)|specialize (T3 y Hy)|specialize (T4 y Hy)]; lia.
